@@ -29,13 +29,22 @@ const qFactorWeightingKey = "q"
 func sortedMimes(accept string) (sorted []mime) {
 	for _, each := range strings.Split(accept, ",") {
 		typeAndQuality := strings.Split(strings.Trim(each, " "), ";")
+		// optional whitespace around ; is not part of the media type
+		typeAndQuality[0] = strings.Trim(typeAndQuality[0], " ")
+		// the quality does not have to be the first parameter
+		for _, param := range typeAndQuality[1:] {
+			if kv := strings.Split(param, "="); len(kv) == 2 && strings.Trim(kv[0], " ") == qFactorWeightingKey {
+				typeAndQuality[1] = param
+				break
+			}
+		}
 		if len(typeAndQuality) == 1 {
 			sorted = insertMime(sorted, mime{typeAndQuality[0], 1.0})
 		} else {
 			// take factor
 			qAndWeight := strings.Split(typeAndQuality[1], "=")
 			if len(qAndWeight) == 2 && strings.Trim(qAndWeight[0], " ") == qFactorWeightingKey {
-				f, err := strconv.ParseFloat(qAndWeight[1], 64)
+				f, err := strconv.ParseFloat(strings.Trim(qAndWeight[1], " "), 64)
 				if err != nil {
 					traceLogger.Printf("unable to parse quality in %s, %v", each, err)
 				} else {
